@@ -84,10 +84,8 @@ Definition a_done (k : bkind) (a b : sexpr) (ns : nst) (sa : ost) (tra : list te
       | inr (en2, sv) =>
           let '(sb, trb, rb) := start b en2 cx in
           match rb with
-          | None => (ONode (ns_set_cell (ns_set_saved (ns_set_ph ns PSecond) sv) (let_cell k oa)) OFin sb,
-                     (tra ++ dtor1 (held k sv (let_cell k oa)) a sa) ++ trb, None)
-          | Some ob => seq_final k (held k sv (let_cell k oa)) b sb ((tra ++ dtor1 (held k sv (let_cell k oa)) a sa) ++ trb)
-                                 (after_second k sv ob)
+          | None => (ONode (ns_set_saved (ns_set_ph ns PSecond) sv) OFin sb, (tra ++ dtor a sa) ++ trb, None)
+          | Some ob => seq_final k b sb ((tra ++ dtor a sa) ++ trb) (after_second k sv ob)
           end
       end
   end.
@@ -97,7 +95,7 @@ Definition b_done (k : bkind) (a b : sexpr) (ns : nst) (sb : ost) (trb : list te
            (r0a r0bl : res) : res :=
   match k with
   | BRetry n => retry_b_done n a b ns sb trb ob r0a r0bl
-  | _ => seq_final k (held k (saved ns) (cell ns)) b sb trb (after_second k (saved ns) ob)
+  | _ => seq_final k b sb trb (after_second k (saved ns) ob)
   end.
 
 Definition start_seq (k : bkind) (a b : sexpr) (en : env) (cx : nat) : res :=
@@ -114,7 +112,7 @@ Definition conc_b_done (k : bkind) (a b : sexpr) (ns : nst) (sa sb' : ost) (tr :
   | Some _ => finish_conc k a b ns1 sa sb' tr fin false
   | None =>
       if newly then
-        let '(sa', tra, ra) := conc_reap k false ns1 a (stop a sa cx) in
+        let '(sa', tra, ra) := conc_reap k a (stop a sa cx) in
         match ra with
         | Some oa =>
             let '(ns2, _, fin2) := conc_child_done k ns1 false oa in
@@ -131,7 +129,7 @@ Definition conc_a_done (k : bkind) (a b : sexpr) (ns : nst) (sa' sb : ost) (tr :
   | Some _ => finish_conc k a b ns1 sa' sb tr fin false
   | None =>
       if newly then
-        let '(sb', trb, rb) := conc_reap k true ns1 b (stop b sb cx) in
+        let '(sb', trb, rb) := conc_reap k b (stop b sb cx) in
         match rb with
         | Some ob =>
             let '(ns2, _, fin2) := conc_child_done k ns1 true ob in
@@ -145,13 +143,13 @@ Definition conc_ns0 (en : env) : nst :=
   ns_set_own (ns_set_reg (mk_nst PBoth en) (negb (e_stopped en))) (e_stopped en).
 
 Definition start_conc (k : bkind) (a b : sexpr) (en : env) (cx : nat) : res :=
-  let '(sa, tra, ra) := conc_reap k false (conc_ns0 en) a (start a (env_own en (e_stopped en)) cx) in
+  let '(sa, tra, ra) := conc_reap k a (start a (env_own en (e_stopped en)) cx) in
   let '(ns1, _, _) :=
       match ra with
       | Some oa => conc_child_done k (conc_ns0 en) false oa
       | None => (conc_ns0 en, false, None)
       end in
-  let '(sb, trb, rb) := conc_reap k true ns1 b (start b (env_own en (own_stop ns1)) cx) in
+  let '(sb, trb, rb) := conc_reap k b (start b (env_own en (own_stop ns1)) cx) in
   match rb with
   | None => (ONode ns1 sa sb, tra ++ trb, None)
   | Some ob => conc_b_done k a b ns1 sa sb (tra ++ trb) ob cx
@@ -189,7 +187,7 @@ Definition stop_seq2 (k : bkind) (a b : sexpr) (ns : nst) (sa sb : ost) (cx : na
 
 Definition stop_conc (k : bkind) (a b : sexpr) (ns : nst) (sa sb : ost) (cx : nat) : res :=
   let ns1 := ns_set_own (stopped_ns ns) true in
-  let '(sb', trb, rb) := if bdone ns1 then (sb, [], None) else conc_reap k true ns1 b (stop b sb cx) in
+  let '(sb', trb, rb) := if bdone ns1 then (sb, [], None) else conc_reap k b (stop b sb cx) in
   let '(ns2, _, fin1) :=
       match rb with
       | Some ob => conc_child_done k ns1 true ob
@@ -198,7 +196,7 @@ Definition stop_conc (k : bkind) (a b : sexpr) (ns : nst) (sa sb : ost) (cx : na
   match fin1 with
   | Some _ => finish_conc k a b ns2 sa sb' trb fin1 (leaky k)
   | None =>
-      let '(sa', tra, ra) := if adone ns2 then (sa, [], None) else conc_reap k false ns2 a (stop a sa cx) in
+      let '(sa', tra, ra) := if adone ns2 then (sa, [], None) else conc_reap k a (stop a sa cx) in
       let '(ns3, _, fin2) :=
           match ra with
           | Some oa => conc_child_done k ns2 false oa
@@ -258,12 +256,12 @@ Definition leafev_seq2 (k : bkind) (a b : sexpr) (ns : nst) (sa sb : ost) (id : 
       (b_done k a b ns sb' trb ob (start a (n_env ns) cx) (r0bl_of b (n_env ns) (start a (n_env ns) cx) cx), hit)
   end.
 
-Definition reap_ev (k : bkind) (i : bool) (ns : nst) (c : sexpr) (x : res * bool) : res * bool := (conc_reap k i ns c (fst x), snd x).
+Definition reap_ev (k : bkind) (c : sexpr) (x : res * bool) : res * bool := (conc_reap k c (fst x), snd x).
 
 Definition leafev_conc (k : bkind) (a b : sexpr) (ns : nst) (sa sb : ost) (id : nat) (o : outcome) (cx : nat) : res * bool :=
   let '((sa', tra, ra), hita) :=
       if adone ns then ((sa, [], None), false)
-      else reap_ev k false ns a (child_ev (bin_throw k false) false a sa id (tmode o) o cx) in
+      else reap_ev k a (child_ev (bin_throw k false) false a sa id (tmode o) o cx) in
   if hita then
     match ra with
     | None => ((ONode ns sa' sb, tra, None), true)
@@ -271,7 +269,7 @@ Definition leafev_conc (k : bkind) (a b : sexpr) (ns : nst) (sa sb : ost) (id : 
     end
   else
     let '((sb', trb, rb), hitb) :=
-        if bdone ns then ((sb, [], None), false) else reap_ev k true ns b (leafev b sb id (tmode o) cx) in
+        if bdone ns then ((sb, [], None), false) else reap_ev k b (leafev b sb id (tmode o) cx) in
     match rb with
     | None => ((ONode ns sa sb', trb, None), hitb)
     | Some ob => (conc_b_done k a b ns sa sb' trb ob cx, hitb)
@@ -298,13 +296,13 @@ Proof.
   intros H.
   assert (E : start (Bin k a b) en cx = if sthrows (Bin k a b) then start_thrown (Bin k a b) en else
     let ns0 := conc_ns0 en in
-    let '(sa, tra, ra) := conc_reap k false ns0 a (start a (env_own en (own_stop ns0)) cx) in
+    let '(sa, tra, ra) := conc_reap k a (start a (env_own en (own_stop ns0)) cx) in
     let '(ns1, _, _) :=
         match ra with
         | Some oa => conc_child_done k ns0 false oa
         | None => (ns0, false, None)
         end in
-    let '(sb, trb, rb) := conc_reap k true ns1 b (start b (env_own en (own_stop ns1)) cx) in
+    let '(sb, trb, rb) := conc_reap k b (start b (env_own en (own_stop ns1)) cx) in
     match rb with
     | None => (ONode ns1 sa sb, tra ++ trb, None)
     | Some ob =>
@@ -313,7 +311,7 @@ Proof.
         | Some _ => finish_conc k a b ns2 sa sb (tra ++ trb) fin false
         | None =>
             if newly then
-              let '(sa', tra2, ra2) := conc_reap k false ns2 a (stop a sa cx) in
+              let '(sa', tra2, ra2) := conc_reap k a (stop a sa cx) in
               match ra2 with
               | Some oa =>
                   let '(ns3, _, fin3) := conc_child_done k ns2 false oa in
@@ -327,14 +325,14 @@ Proof.
   rewrite E. clear E. destruct (sthrows (Bin k a b)); [reflexivity|].
   unfold start_conc, conc_b_done. cbv zeta.
   change (own_stop (conc_ns0 en)) with (e_stopped en).
-  destruct (conc_reap k false (conc_ns0 en) a (start a (env_own en (e_stopped en)) cx)) as [[sa tra] ra].
+  destruct (conc_reap k a (start a (env_own en (e_stopped en)) cx)) as [[sa tra] ra].
   destruct (match ra with Some oa => conc_child_done k (conc_ns0 en) false oa | None => (conc_ns0 en, false, None) end)
     as [[ns1 x1] x2].
-  destruct (conc_reap k true ns1 b (start b (env_own en (own_stop ns1)) cx)) as [[sb trb] rb].
+  destruct (conc_reap k b (start b (env_own en (own_stop ns1)) cx)) as [[sb trb] rb].
   destruct rb as [ob|]; [|reflexivity].
   destruct (conc_child_done k ns1 true ob) as [[ns2 newly] fin].
   destruct fin; [reflexivity|]. destruct newly; [|reflexivity].
-  destruct (conc_reap k false ns2 a (stop a sa cx)) as [[sa' tra2] ra2].
+  destruct (conc_reap k a (stop a sa cx)) as [[sa' tra2] ra2].
   destruct ra2 as [oa|]; rewrite app_assoc; reflexivity.
 Qed.
 
@@ -422,7 +420,7 @@ Proof.
                        | Some v => if bin_throw k false then fst (leafev a sa id (OValK v) cx) else r0
                        | None => r0
                        end in
-              (conc_reap k false ns a r, h)) in
+              (conc_reap k a r, h)) in
         if hita then
           match ra with
           | None => ((ONode ns sa' sb, tra, None), true)
@@ -432,7 +430,7 @@ Proof.
               | Some _ => (finish_conc k a b ns1 sa' sb tra fin false, true)
               | None =>
                   if newly then
-                    let '(sb', trb, rb) := conc_reap k true ns1 b (stop b sb cx) in
+                    let '(sb', trb, rb) := conc_reap k b (stop b sb cx) in
                     match rb with
                     | Some ob =>
                         let '(ns2, _, fin2) := conc_child_done k ns1 true ob in
@@ -443,7 +441,7 @@ Proof.
               end
           end
         else
-          let '((sb', trb, rb), hitb) := if bdone ns then ((sb, [], None), false) else (let (r, h) := leafev b sb id (tmode o) cx in (conc_reap k true ns b r, h)) in
+          let '((sb', trb, rb), hitb) := if bdone ns then ((sb, [], None), false) else (let (r, h) := leafev b sb id (tmode o) cx in (conc_reap k b r, h)) in
           match rb with
           | None => ((ONode ns sa sb', trb, None), hitb)
           | Some ob =>
@@ -452,7 +450,7 @@ Proof.
               | Some _ => (finish_conc k a b ns1 sa sb' trb fin false, hitb)
               | None =>
                   if newly then
-                    let '(sa', tra, ra) := conc_reap k false ns1 a (stop a sa cx) in
+                    let '(sa', tra, ra) := conc_reap k a (stop a sa cx) in
                     match ra with
                     | Some oa =>
                         let '(ns2, _, fin2) := conc_child_done k ns1 false oa in
@@ -478,7 +476,7 @@ Proof.
     { destruct (thrown r0); [|reflexivity]. destruct (bin_throw k false); [reflexivity|].
       apply caught_false. }
     rewrite Ec. clear Ec.
-    destruct (conc_reap k false ns a match thrown r0 with
+    destruct (conc_reap k a match thrown r0 with
                  | Some v => if bin_throw k false then fst (leafev a sa id (OValK v) cx) else r0
                  | None => r0 end) as [[sa' tra] ra]. destruct hh.
     + repeat (bmg; try reflexivity).
@@ -489,7 +487,7 @@ Qed.
 
 (* states that do not fit the expression: nothing happens *)
 Definition inert (st : ost) : Prop :=
-  match st with OFin | OCompl _ _ | OStore _ _ _ => True | _ => False end.
+  match st with OFin | OCompl _ _ => True | _ => False end.
 Lemma stop_inert_st e st cx : inert st -> stop e st cx = (st, [], None).
 Proof. destruct st; simpl; try contradiction; intros _; destruct e; reflexivity. Qed.
 Lemma leafev_inert_st e st id o cx : inert st -> leafev e st id o cx = ((st, [], None), false).
@@ -541,17 +539,13 @@ Proof. reflexivity. Qed.
 (* the completed node: its state is inert, the events are the given ones followed by destructions *)
 Lemma finish_some k a b ns sa sb tr o :
   exists st' d, finish_conc k a b ns sa sb tr (Some o) false = (st', tr ++ d, Some o) /\ inert st' /\
-                (d = [] \/ d = dtor a sa ++ dtor b sb \/ exists v, d = dtor a sa ++ dtor b sb ++ [TValCtor SAnyJ v]).
+                (d = [] \/ d = dtor a sa ++ dtor b sb).
 Proof.
   unfold finish_conc.
   destruct k, o; cbn [andb];
-    try (exists (OCompl sa sb), []; split; [rewrite app_nil_r; reflexivity|split; [exact I|left; reflexivity]]);
-    destruct (cell ns) as [cv|]; simpl;
-    try (exists OFin, (dtor a sa ++ dtor b sb); split; [reflexivity|split; [exact I|right; left; reflexivity]]);
-    try (exists (OStore SCell cv (OStore SAnyJ cv OFin)), (dtor a sa ++ dtor b sb ++ [TValCtor SAnyJ cv]);
-         split; [reflexivity|split; [exact I|right; right; eexists; reflexivity]]).
-  - exists (OStore SCell cv (OCompl sa sb)), []. rewrite app_nil_r. split; [reflexivity|split; [exact I|left; reflexivity]].
-  - exists (OCompl sa sb), []. rewrite app_nil_r. split; [reflexivity|split; [exact I|left; reflexivity]].
+    try (exists (OCompl sa sb), []; split; [reflexivity|split; [exact I|left; reflexivity]]);
+    try (exists OFin, (dtor a sa ++ dtor b sb); split; [reflexivity|split; [exact I|right; reflexivity]]).
+  exists (OCompl sa sb), []. rewrite app_nil_r. split; [reflexivity|split; [exact I|left; reflexivity]].
 Qed.
 Lemma leaky_false k : leaky k = false.
 Proof. reflexivity. Qed.
@@ -718,7 +712,6 @@ Definition evok (e : sexpr) (sm : qsum) (cx : nat) (t : tev) : Prop :=
   | TLeak _ => False
   | TCall _ _ | TPred _ | TGate _ => True
   | TAlloc _ | TFree _ => True
-  | TValCtor _ _ | TValDtor _ _ => True     (* [stage 6] stores: no identifier, no context *)
   end.
 Definition trok (e : sexpr) (sm : qsum) (cx : nat) (tr : list tev) : Prop := Forall (evok e sm cx) tr.
 
@@ -751,37 +744,19 @@ Proof.
 Qed.
 #[global] Hint Resolve trok_nil trok_app : calc.
 
-(* destructor cascades only mention the expression's own leaves and schedule operations ([stage 6] and stores) *)
-Lemma unwrap_idem_c st : unwrap (unwrap st) = unwrap st.
-Proof. induction st; simpl; auto. Qed.
-Lemma unwrap_not_store_c st : forall sk v s, unwrap st <> OStore sk v s.
-Proof. induction st; simpl; intros; try discriminate. apply IHst. Qed.
-Lemma wdtor_unwrap_c st : wdtor (unwrap st) = [].
-Proof. induction st; simpl; auto. Qed.
-Lemma dtor_unwrap_c e st : dtor e st = dtor e (unwrap st) ++ wdtor st.
-Proof. destruct e; simpl; rewrite ?unwrap_idem_c, ?wdtor_unwrap_c, ?app_nil_r; reflexivity. Qed.
-Lemma wdtor_ok e sm cx st : trok e sm cx (wdtor st).
-Proof. induction st; simpl; try apply trok_nil. apply trok_app; [exact IHst|repeat constructor]. Qed.
-Lemma stored_ok e sm cx k st : trok e sm cx (stored k st).
-Proof. destruct st; simpl; try apply trok_nil. destruct (own_store k k0); repeat constructor. Qed.
+(* destructor cascades only mention the expression's own leaves and schedule operations *)
 Lemma dtor_ok e : forall sm cx st, trok e sm cx (dtor e st).
 Proof.
-  induction e; intros sm cx st; rewrite dtor_unwrap_c; (apply trok_app; [|apply wdtor_ok]);
-    pose proof (unwrap_idem_c st) as U; destruct (unwrap st); simpl in U; try (exfalso; exact (unwrap_not_store_c _ _ _ _ U));
-    simpl; rewrite ?app_nil_r; try apply trok_nil;
+  induction e; intros sm cx st; destruct st; simpl; try apply trok_nil;
     try (repeat constructor; simpl; auto; fail);
     try (destruct k; simpl; try apply trok_nil; try (apply trok_un; apply IHe);
          try (apply trok_app; [apply trok_un; apply IHe|repeat constructor]); fail).
-  - apply trok_app; [|apply trok_app; apply stored_ok].
-    destruct (dtor_b_first k); apply trok_app;
+  - destruct (dtor_b_first k); apply trok_app;
       solve [apply trok_bin_a; apply IHe1 | apply trok_bin_b; apply IHe2].
-  - apply trok_app; [|apply trok_app; apply stored_ok].
-    destruct (dtor_b_first k); apply trok_app;
+  - destruct (dtor_b_first k); apply trok_app;
       solve [apply trok_bin_a; apply IHe1 | apply trok_bin_b; apply IHe2].
 Qed.
-Lemma dtor1_ok h e sm cx st : trok e sm cx (dtor1 h e st).
-Proof. unfold dtor1. apply trok_app; [destruct h as [[? ?]|]; repeat constructor|apply dtor_ok]. Qed.
-#[global] Hint Resolve dtor_ok dtor1_ok : calc.
+#[global] Hint Resolve dtor_ok : calc.
 
 (* ---- [stage 5] blocks: the allocator visible at an allocate node ------------------------------------ *)
 Definition un_al (k : ukind) (al : nat) : nat := match k with UWithAlloc a => a | _ => al end.
@@ -954,25 +929,12 @@ Lemma seq_pass_q k a b sm cx sa tr o st tr' r :
   seq_pass k a sa tr o = (st, tr', r) -> trok (Bin k a b) sm cx tr ->
   qwf (Bin k a b) sm st /\ trok (Bin k a b) sm cx tr'.
 Proof. unfold seq_pass. intros H Ht. destruct (eager_dtor k); inv H; split; auto with calc. Qed.
-Lemma dtor1_ok_a h k a b sm cx sa : trok (Bin k a b) sm cx (dtor1 h a sa).
-Proof. apply trok_bin_a. apply dtor1_ok. Qed.
-Lemma dtor_ev_ok h e sm cx : trok e sm cx (dtor_ev h).
-Proof. destruct h as [[? ?]|]; repeat constructor. Qed.
-Lemma qwf_wrap e sm h st : inert st -> qwf e sm (wrap h st).
-Proof. destruct h as [[? ?]|]; simpl; intros H; apply qwf_inert; [exact I|exact H]. Qed.
-#[global] Hint Resolve dtor1_ok_a dtor_ev_ok : calc.
-Lemma seq_final_q k h a b sm cx sb tr o st tr' r :
-  seq_final k h b sb tr o = (st, tr', r) -> trok (Bin k a b) sm cx tr ->
+Lemma seq_final_q k a b sm cx sb tr o st tr' r :
+  seq_final k b sb tr o = (st, tr', r) -> trok (Bin k a b) sm cx tr ->
   qwf (Bin k a b) sm st /\ trok (Bin k a b) sm cx tr'.
-Proof.
-  unfold seq_final. intros H Ht. destruct (eager_dtor k); inv H; split; auto with calc.
-  apply qwf_wrap. exact I.
-Qed.
+Proof. unfold seq_final. intros H Ht. destruct (eager_dtor k); inv H; split; auto with calc. Qed.
 
-Lemma ctor_ev_ok h e sm cx : trok e sm cx (ctor_ev h).
-Proof. destruct h as [[? ?]|]; repeat constructor. Qed.
-Ltac tk := repeat first [ apply trok_nil | assumption | apply dtor_ok_a | apply dtor_ok_b | apply dtor1_ok_a
-                        | apply dtor_ev_ok | apply ctor_ev_ok
+Ltac tk := repeat first [ apply trok_nil | assumption | apply dtor_ok_a | apply dtor_ok_b
                         | apply trok_app | apply trok_cons; [exact I|] ].
 
 Lemma retry_err_q k a b sm cx sa0 tra0 ra0 sbl trbl rbl :
@@ -1062,10 +1024,8 @@ Proof.
       | inr (en2, sv) =>
           let '(sb, trb, rb) := start b en2 cx in
           match rb with
-          | None => (ONode (ns_set_cell (ns_set_saved (ns_set_ph ns PSecond) sv) (let_cell k oa)) OFin sb,
-                     (tra ++ dtor1 (held k sv (let_cell k oa)) a sa) ++ trb, None)
-          | Some ob => seq_final k (held k sv (let_cell k oa)) b sb ((tra ++ dtor1 (held k sv (let_cell k oa)) a sa) ++ trb)
-                                 (after_second k sv ob)
+          | None => (ONode (ns_set_saved (ns_set_ph ns PSecond) sv) OFin sb, (tra ++ dtor a sa) ++ trb, None)
+          | Some ob => seq_final k b sb ((tra ++ dtor a sa) ++ trb) (after_second k sv ob)
           end
       end = (st, tr, r) -> qwf (Bin k a b) sm st /\ trok (Bin k a b) sm cx tr end).
   { destruct k; try discriminate Hk; try exact I; intros H'.
@@ -1115,20 +1075,14 @@ Proof.
 Qed.
 
 (* ---- concurrent nodes ----------------------------------------------------------------------------- *)
-Lemma qwf_store e sm k v st : qwf e sm (OStore k v st).
-Proof. destruct e; exact I. Qed.
-#[global] Hint Resolve qwf_store : calc.
-Lemma conc_reap_q k i ns c smc cx sc tr r sc' tr' r' :
-  conc_reap k i ns c (sc, tr, r) = (sc', tr', r') -> qwf c smc sc -> trok c smc cx tr ->
+Lemma conc_reap_q k c smc cx sc tr r sc' tr' r' :
+  conc_reap k c (sc, tr, r) = (sc', tr', r') -> qwf c smc sc -> trok c smc cx tr ->
   qwf c smc sc' /\ trok c smc cx tr' /\ r' = r.
 Proof.
   unfold conc_reap. intros H Hq Ht.
-  destruct r as [o|]; [destruct o|]; try (inv H; auto; fail).
   destruct k; try (inv H; auto; fail).
-  - inv H. split; [auto with calc|]. split; [|reflexivity]. apply trok_app; [exact Ht|repeat constructor].
-  - destruct i; inv H; auto. split; [auto with calc|]. split; [|reflexivity]. apply trok_app; [exact Ht|repeat constructor].
-  - inv H. split; [auto with calc|]. split; [|reflexivity]. apply trok_app; [exact Ht|].
-    apply trok_cons; [exact I|]. apply trok_app; [apply dtor_ok|]. destruct (cell ns); repeat constructor.
+  destruct r as [o|]; [destruct o|]; inv H; auto.
+  split; auto with calc.
 Qed.
 
 Lemma finish_q k a b sm cx ns sa sb tr fin st tr' r :
@@ -1138,7 +1092,7 @@ Lemma finish_q k a b sm cx ns sa sb tr fin st tr' r :
 Proof.
   intros H Hn Ha Hb Ht. destruct fin as [o|].
   - destruct (finish_some k a b ns sa sb tr o) as (st2 & d & E & Hi & Hd). rewrite E in H. inv H.
-    split; [apply qwf_inert; exact Hi|]. destruct Hd as [->|[->|[v ->]]]; tk.
+    split; [apply qwf_inert; exact Hi|]. destruct Hd as [->| ->]; tk.
   - rewrite finish_none in H. inv H. rewrite qwf_bin. auto.
 Qed.
 
@@ -1158,8 +1112,8 @@ Proof.
     + destruct (stop a sa cx) as [[sa0 tra0] ra0] eqn:Hs.
       assert (Hsp : s_sp (bin_sum k sm) = true) by (rewrite bin_sum_conc by exact Hk; reflexivity).
       destruct (Sa _ _ _ _ _ _ Hs Hsp Ha) as [Ha0 Hta0].
-      destruct (conc_reap k _ _ a (sa0, tra0, ra0)) as [[sa' tra] ra] eqn:Hr.
-      destruct (conc_reap_q _ _ _ _ _ _ _ _ _ _ _ _ Hr Ha0 Hta0) as (Ha' & Hta & _).
+      destruct (conc_reap k a (sa0, tra0, ra0)) as [[sa' tra] ra] eqn:Hr.
+      destruct (conc_reap_q _ _ _ _ _ _ _ _ _ _ Hr Ha0 Hta0) as (Ha' & Hta & _).
       apply (trok_bin_a k a b) in Hta.
       destruct ra as [oa|].
       * destruct (conc_child_done k ns1 false oa) as [[ns2 x] fin2] eqn:Hc2.
@@ -1185,8 +1139,8 @@ Proof.
     + destruct (stop b sb cx) as [[sb0 trb0] rb0] eqn:Hs.
       assert (Hsp : s_sp (bin_sum k sm) = true) by (rewrite bin_sum_conc by exact Hk; reflexivity).
       destruct (Sb _ _ _ _ _ _ Hs Hsp Hb) as [Hb0 Htb0].
-      destruct (conc_reap k _ _ b (sb0, trb0, rb0)) as [[sb' trb] rb] eqn:Hr.
-      destruct (conc_reap_q _ _ _ _ _ _ _ _ _ _ _ _ Hr Hb0 Htb0) as (Hb' & Htb & _).
+      destruct (conc_reap k b (sb0, trb0, rb0)) as [[sb' trb] rb] eqn:Hr.
+      destruct (conc_reap_q _ _ _ _ _ _ _ _ _ _ Hr Hb0 Htb0) as (Hb' & Htb & _).
       apply (trok_bin_b k a b) in Htb.
       destruct rb as [ob|].
       * destruct (conc_child_done k ns1 true ob) as [[ns2 x] fin2] eqn:Hc2.
@@ -1205,8 +1159,8 @@ Proof.
   destruct (start a (env_own en (e_stopped en)) cx) as [[sa0 tra0] ra0] eqn:Ha.
   destruct (Sa _ _ _ _ _ Ha (good_own _ _)) as [Hqa0 Hta0]. rewrite summ_own in Hqa0, Hta0.
   rewrite <- (bin_sum_conc k) in Hqa0, Hta0 by exact Hk.
-  destruct (conc_reap k _ _ a (sa0, tra0, ra0)) as [[sa tra] ra] eqn:Hra.
-  destruct (conc_reap_q _ _ _ _ _ _ _ _ _ _ _ _ Hra Hqa0 Hta0) as (Hqa & Hta & _).
+  destruct (conc_reap k a (sa0, tra0, ra0)) as [[sa tra] ra] eqn:Hra.
+  destruct (conc_reap_q _ _ _ _ _ _ _ _ _ _ Hra Hqa0 Hta0) as (Hqa & Hta & _).
   apply (trok_bin_a k a b) in Hta.
   destruct (match ra with
             | Some oa => conc_child_done k (conc_ns0 en) false oa
@@ -1218,23 +1172,23 @@ Proof.
   destruct (start b (env_own en (own_stop ns1)) cx) as [[sb0 trb0] rb0] eqn:Hb.
   destruct (Sb _ _ _ _ _ Hb (good_own _ _)) as [Hqb0 Htb0]. rewrite summ_own in Hqb0, Htb0.
   rewrite <- (bin_sum_conc k) in Hqb0, Htb0 by exact Hk.
-  destruct (conc_reap k _ _ b (sb0, trb0, rb0)) as [[sb trb] rb] eqn:Hrb.
-  destruct (conc_reap_q _ _ _ _ _ _ _ _ _ _ _ _ Hrb Hqb0 Htb0) as (Hqb & Htb & _).
+  destruct (conc_reap k b (sb0, trb0, rb0)) as [[sb trb] rb] eqn:Hrb.
+  destruct (conc_reap_q _ _ _ _ _ _ _ _ _ _ Hrb Hqb0 Htb0) as (Hqb & Htb & _).
   apply (trok_bin_b k a b) in Htb.
   destruct rb as [ob|].
   - eapply conc_b_done_q; [..|exact H]; eauto with calc.
   - inv H. rewrite qwf_bin. auto with calc.
 Qed.
 
-Lemma opt_stop_q k ri rns c smc cx (d : bool) sc sc' tr r :
+Lemma opt_stop_q k c smc cx (d : bool) sc sc' tr r :
   StopQ c -> s_sp smc = true -> qwf c smc sc ->
-  (if d then (sc, [], None) else conc_reap k ri rns c (stop c sc cx)) = (sc', tr, r) ->
+  (if d then (sc, [], None) else conc_reap k c (stop c sc cx)) = (sc', tr, r) ->
   qwf c smc sc' /\ trok c smc cx tr.
 Proof.
   intros P Hsp Hq H. destruct d; [inv H; auto with calc|].
   destruct (stop c sc cx) as [[s0 t0] r0] eqn:Hs.
   destruct (P _ _ _ _ _ _ Hs Hsp Hq) as [Q T].
-  destruct (conc_reap_q _ _ _ _ _ _ _ _ _ _ _ _ H Q T) as (Q' & T' & _). auto.
+  destruct (conc_reap_q _ _ _ _ _ _ _ _ _ _ H Q T) as (Q' & T' & _). auto.
 Qed.
 
 Lemma stop_conc_q k a b sm cx ns sa sb st' tr r :
@@ -1246,9 +1200,9 @@ Proof.
   intros Hk Pa Pb Hsp Hn Hqa Hqb H. unfold stop_conc in H. cbv zeta in H.
   change (leaky k) with false in H.
   assert (Hsp' := bin_sum_sp k sm Hsp).
-  destruct (if bdone (ns_set_own (stopped_ns ns) true) then (sb, [], None) else conc_reap k _ _ b (stop b sb cx))
+  destruct (if bdone (ns_set_own (stopped_ns ns) true) then (sb, [], None) else conc_reap k b (stop b sb cx))
     as [[sb' trb] rb] eqn:Hb.
-  destruct (opt_stop_q _ _ _ _ _ _ _ _ _ _ _ Pb Hsp' Hqb Hb) as [Hqb' Htb].
+  destruct (opt_stop_q _ _ _ _ _ _ _ _ _ Pb Hsp' Hqb Hb) as [Hqb' Htb].
   apply (trok_bin_b k a b) in Htb.
   destruct (match rb with
             | Some ob => conc_child_done k (ns_set_own (stopped_ns ns) true) true ob
@@ -1261,8 +1215,8 @@ Proof.
     - inv Hm. exact Hn0. }
   destruct fin1 as [o1|].
   - eapply finish_q; eauto.
-  - destruct (if adone ns2 then (sa, [], None) else conc_reap k _ _ a (stop a sa cx)) as [[sa' tra] ra] eqn:Ha.
-    destruct (opt_stop_q _ _ _ _ _ _ _ _ _ _ _ Pa Hsp' Hqa Ha) as [Hqa' Hta].
+  - destruct (if adone ns2 then (sa, [], None) else conc_reap k a (stop a sa cx)) as [[sa' tra] ra] eqn:Ha.
+    destruct (opt_stop_q _ _ _ _ _ _ _ _ _ Pa Hsp' Hqa Ha) as [Hqa' Hta].
     apply (trok_bin_a k a b) in Hta.
     destruct (match ra with
               | Some oa => conc_child_done k ns2 false oa
@@ -1283,16 +1237,16 @@ Proof.
   exact (L _ _ _ _ _ _ _ _ _ E Hq).
 Qed.
 
-Lemma opt_leafev_q k ri rns c smc cx (d : bool) sc (X : res * bool) sc' tr r hit :
+Lemma opt_leafev_q k c smc cx (d : bool) sc (X : res * bool) sc' tr r hit :
   (forall s1 t1 r1 h1, X = ((s1, t1, r1), h1) -> qwf c smc s1 /\ trok c smc cx t1) -> qwf c smc sc ->
-  (if d then ((sc, [], None), false) else reap_ev k ri rns c X) = ((sc', tr, r), hit) ->
+  (if d then ((sc, [], None), false) else reap_ev k c X) = ((sc', tr, r), hit) ->
   qwf c smc sc' /\ trok c smc cx tr.
 Proof.
   intros L Hq H. destruct d; [inv H; auto with calc|].
   destruct X as [[[s0 t0] r0] h0] eqn:Hs.
   destruct (L _ _ _ _ eq_refl) as [Q T].
-  unfold reap_ev in H. cbn [fst snd] in H. injection H as H Hh.
-  destruct (conc_reap_q _ _ _ _ _ _ _ _ _ _ _ _ H Q T) as (Q' & T' & _). auto.
+  unfold reap_ev in H. simpl in H. injection H as H Hh.
+  destruct (conc_reap_q _ _ _ _ _ _ _ _ _ _ H Q T) as (Q' & T' & _). auto.
 Qed.
 
 Lemma leafev_conc_q k a b sm cx ns sa sb id o st' tr r hit :
@@ -1304,18 +1258,18 @@ Lemma leafev_conc_q k a b sm cx ns sa sb id o st' tr r hit :
 Proof.
   intros Hk La Lb Pa Pb Hn Hqa Hqb H. unfold leafev_conc in H.
   destruct (if adone ns then (sa, [], None, false)
-            else reap_ev k _ _ a (child_ev (bin_throw k false) false a sa id (tmode o) o cx))
+            else reap_ev k a (child_ev (bin_throw k false) false a sa id (tmode o) o cx))
     as [[[sa' tra] ra] hita] eqn:Ha.
-  destruct (opt_leafev_q k _ _ a (bin_sum k sm) cx _ _ _ _ _ _ _
+  destruct (opt_leafev_q k a (bin_sum k sm) cx _ _ _ _ _ _ _
               (fun s1 t1 r1 h1 E => child_ev_q _ _ _ _ _ _ _ _ _ _ _ _ _ La Hqa E) Hqa Ha) as [Hqa' Hta].
   apply (trok_bin_a k a b) in Hta.
   destruct hita.
   - destruct ra as [oa|].
     + injection H as H Hhit. eapply conc_a_done_q; [..|exact H]; eauto with calc.
     + inv H. rewrite qwf_bin. auto.
-  - destruct (if bdone ns then (sb, [], None, false) else reap_ev k _ _ b (leafev b sb id (tmode o) cx))
+  - destruct (if bdone ns then (sb, [], None, false) else reap_ev k b (leafev b sb id (tmode o) cx))
       as [[[sb' trb] rb] hitb] eqn:Hb.
-    destruct (opt_leafev_q k _ _ b (bin_sum k sm) cx _ _ _ _ _ _ _
+    destruct (opt_leafev_q k b (bin_sum k sm) cx _ _ _ _ _ _ _
                 (fun s1 t1 r1 h1 E => Lb _ _ _ _ _ _ _ _ _ E Hqb) Hqb Hb) as [Hqb' Htb].
     apply (trok_bin_b k a b) in Htb.
     destruct rb as [ob|].
@@ -1371,10 +1325,10 @@ Proof.
         [constructor|simpl; auto|intros; destruct st0; exact I| |exact Hg].
       simpl. destruct (e_stopped en); exact H.
     + intros sm cx st st' tr r H Hsp Hq. split; [destruct st'; exact I|].
-      destruct st as [|c sn| | | |? ? ?]; simpl in H; try (inv H; constructor).
+      destruct st as [|c sn| | |]; simpl in H; try (inv H; constructor).
       destruct c, sn; inv H; repeat constructor; simpl; auto.
     + intros sm cx st i o st' tr r hit H Hq. split; [destruct st'; exact I|].
-      destruct st as [|c sn| | | |? ? ?]; simpl in H; try (inv H; constructor).
+      destruct st as [|c sn| | |]; simpl in H; try (inv H; constructor).
       destruct c; [inv H; constructor|]. destruct (Nat.eqb i id); inv H; constructor.
   - (* LeafN *)
     split; [|split].
@@ -1383,19 +1337,19 @@ Proof.
         [constructor|simpl; auto|intros; destruct st0; exact I| |exact Hg].
       simpl. destruct (e_stopped en); exact H.
     + intros sm cx st st' tr r H Hsp Hq. split; [destruct st'; exact I|].
-      destruct st as [|c sn| | | |? ? ?]; simpl in H; try (inv H; constructor).
+      destruct st as [|c sn| | |]; simpl in H; try (inv H; constructor).
       destruct c, sn; inv H; repeat constructor; simpl; auto.
     + intros sm cx st i o st' tr r hit H Hq. split; [destruct st'; exact I|].
-      destruct st as [|c sn| | | |? ? ?]; simpl in H; try (inv H; constructor).
+      destruct st as [|c sn| | |]; simpl in H; try (inv H; constructor).
       destruct c; [inv H; constructor|]. destruct (Nat.eqb i id); inv H; constructor.
   - (* Sched *)
     split; [|split].
     + intros en cx st tr r H Hg. simpl in H. inv H. split; [exact I|]. repeat constructor; simpl; auto.
     + intros sm cx st st' tr r H Hsp Hq. split; [destruct st'; exact I|].
-      destruct st as [|cc sn| | | |? ? ?]; simpl in H; try (inv H; constructor).
+      destruct st as [|cc sn| | |]; simpl in H; try (inv H; constructor).
       destruct cc, sn; inv H; repeat constructor; simpl; auto.
     + intros sm cx st i o st' tr r hit H Hq. split; [destruct st'; exact I|].
-      destruct st as [|cc sn| | | |? ? ?]; simpl in H; try (inv H; constructor).
+      destruct st as [|cc sn| | |]; simpl in H; try (inv H; constructor).
       destruct cc; [inv H; constructor|]. destruct (Nat.eqb i id); inv H; constructor.
   - (* LeafR *)
     split; [|split].
@@ -1404,10 +1358,10 @@ Proof.
         [constructor|simpl; auto|intros; destruct st0; exact I| |exact Hg].
       simpl. destruct (e_stopped en); exact H.
     + intros sm cx st st' tr r H Hsp Hq. split; [destruct st'; exact I|].
-      destruct st as [|c sn| | | |? ? ?]; simpl in H; try (inv H; constructor).
+      destruct st as [|c sn| | |]; simpl in H; try (inv H; constructor).
       destruct c, sn; inv H; repeat constructor; simpl; auto.
     + intros sm cx st i o st' tr r hit H Hq. split; [destruct st'; exact I|].
-      destruct st as [|c sn| | |vv|? ? ?]; simpl in H; try (inv H; constructor).
+      destruct st as [|c sn| | |vv]; simpl in H; try (inv H; constructor).
       * destruct c; [inv H; constructor|]. destruct (Nat.eqb i id) eqn:E; [|inv H; constructor].
         apply Nat.eqb_eq in E. subst i.
         destruct o; inv H; repeat constructor; simpl; auto.
@@ -1434,13 +1388,12 @@ Proof.
       * eapply un_fin_q; [apply nok_un_nst; exact Hg|exact Hq|exact Htp|exact Ht|exact Hq|exact H].
       * inv H. rewrite qwf_un. split; auto. split; [apply nok_un_nst; exact Hg|exact Hq].
     + intros sm cx st st' tr r H Hsp Hq.
-      destruct st as [|c sn|ns sc sb|sa sb|vv|? ? ?];
+      destruct st as [|c sn|ns sc sb|sa sb|vv];
         [rewrite stop_fin in H; inv H; auto with calc
         |simpl in H; inv H; auto with calc
         |
         |rewrite stop_inert_st in H by exact I; inv H; auto with calc
-        |simpl in H; inv H; auto with calc
-        |rewrite stop_inert_st in H by exact I; inv H; auto with calc].
+        |simpl in H; inv H; auto with calc].
       rewrite qwf_un in Hq. destruct Hq as [Hn Hq].
       destruct (is_unst k) eqn:Hk.
       * apply is_unst_true in Hk. subst k. rewrite stop_un_unst in H. inv H.
@@ -1464,13 +1417,12 @@ Proof.
            eapply un_fin_q; [split; eassumption|exact Hq'|exact Ht|exact Ht0|exact Hq0|exact H].
         -- inv H. rewrite qwf_un. auto.
     + intros sm cx st i o st' tr r hit H Hq.
-      destruct st as [|c sn|ns sc sb|sa sb|vv|? ? ?];
+      destruct st as [|c sn|ns sc sb|sa sb|vv];
         [rewrite leafev_fin in H; inv H; auto with calc
         |simpl in H; inv H; auto with calc
         |
         |rewrite leafev_inert_st in H by exact I; inv H; auto with calc
-        |simpl in H; inv H; auto with calc
-        |rewrite leafev_inert_st in H by exact I; inv H; auto with calc].
+        |simpl in H; inv H; auto with calc].
       rewrite qwf_un in Hq. destruct Hq as [Hn Hq].
       rewrite leafev_un in H. unfold leafev_un_body in H.
       destruct (child_ev (un_throw k) (un_catch k) s sc i (un_in k o) o cx) as [[[sc' tr1] r1] h1] eqn:Hs.
@@ -1519,13 +1471,12 @@ Proof.
         -- inv H. rewrite qwf_bin. split; auto.
            split; [split; [reflexivity|exact Hg]|]. split; auto with calc.
       * intros sm cx st st' tr r H Hsp Hq.
-        destruct st as [|c sn|ns sa sb|sa sb|vv|? ? ?];
+        destruct st as [|c sn|ns sa sb|sa sb|vv];
           [rewrite stop_fin in H; inv H; auto with calc
           |simpl in H; inv H; auto with calc
           |
           |rewrite stop_inert_st in H by exact I; inv H; auto with calc
-          |simpl in H; inv H; auto with calc
-          |rewrite stop_inert_st in H by exact I; inv H; auto with calc].
+          |simpl in H; inv H; auto with calc].
         rewrite qwf_bin in Hq. destruct Hq as (Hn & Hqa & Hqb).
         assert (Hsp' := bin_sum_sp k sm Hsp).
         assert (Hns : nok sm (stopped_ns ns)) by (apply nok_stopped; assumption).
@@ -1565,13 +1516,12 @@ Proof.
               eapply b_done_q; [exact Hk|exact Hns|exact Htb|exact Q1|exact T1|exact Q2|exact T2|exact H].
            ++ inv H. rewrite qwf_bin. auto.
       * intros sm cx st i o st' tr r hit H Hq.
-        destruct st as [|c sn|ns sa sb|sa sb|vv|? ? ?];
+        destruct st as [|c sn|ns sa sb|sa sb|vv];
           [rewrite leafev_fin in H; inv H; auto with calc
           |simpl in H; inv H; auto with calc
           |
           |rewrite leafev_inert_st in H by exact I; inv H; auto with calc
-          |simpl in H; inv H; auto with calc
-          |rewrite leafev_inert_st in H by exact I; inv H; auto with calc].
+          |simpl in H; inv H; auto with calc].
         rewrite qwf_bin in Hq. destruct Hq as (Hn & Hqa & Hqb).
         rewrite leafev_bin_seq in H by exact Hk.
         assert (R0 : forall sa0 tra0 ra0 sbl trbl rbl,
@@ -1622,26 +1572,24 @@ Proof.
         destruct (sthrows (Bin k a b)); [unfold start_thrown in H; injection H as <- <- <-; split; [apply qwf_fin|exact (trok_sconn (Bin k a b) (summ en) cx (e_alloc en))]|].
         eapply start_conc_q; [..|exact H|exact Hg]; eauto with calc.
       * intros sm cx st st' tr r H Hsp Hq.
-        destruct st as [|c sn|ns sa sb|sa sb|vv|? ? ?];
+        destruct st as [|c sn|ns sa sb|sa sb|vv];
           [rewrite stop_fin in H; inv H; auto with calc
           |simpl in H; inv H; auto with calc
           |
           |rewrite stop_inert_st in H by exact I; inv H; auto with calc
-          |simpl in H; inv H; auto with calc
-          |rewrite stop_inert_st in H by exact I; inv H; auto with calc].
+          |simpl in H; inv H; auto with calc].
         rewrite qwf_bin in Hq. destruct Hq as (Hn & Hqa & Hqb).
         rewrite stop_bin, Hk in H.
         destruct (own_stop ns).
         -- inv H. rewrite qwf_bin. split; auto with calc. split; [apply nok_stopped; assumption|]. auto.
         -- eapply stop_conc_q; [..|exact H]; eauto with calc.
       * intros sm cx st i o st' tr r hit H Hq.
-        destruct st as [|c sn|ns sa sb|sa sb|vv|? ? ?];
+        destruct st as [|c sn|ns sa sb|sa sb|vv];
           [rewrite leafev_fin in H; inv H; auto with calc
           |simpl in H; inv H; auto with calc
           |
           |rewrite leafev_inert_st in H by exact I; inv H; auto with calc
-          |simpl in H; inv H; auto with calc
-          |rewrite leafev_inert_st in H by exact I; inv H; auto with calc].
+          |simpl in H; inv H; auto with calc].
         rewrite qwf_bin in Hq. destruct Hq as (Hn & Hqa & Hqb).
         rewrite leafev_bin_conc in H by exact Hk.
         eapply leafev_conc_q; [..|exact H]; eauto with calc.
@@ -1851,19 +1799,13 @@ Proof.
 Qed.
 
 Definition is_dtor_ev (t : tev) : Prop :=
-  match t with TLeafDtor _ | TSchedDtor _ | TFree _ | TValDtor _ _ => True | _ => False end.
-Lemma wdtor_only st : Forall is_dtor_ev (wdtor st).
-Proof. induction st; simpl; try constructor. apply Forall_app. split; [exact IHst|repeat constructor]. Qed.
-Lemma stored_only k st : Forall is_dtor_ev (stored k st).
-Proof. destruct st; simpl; try constructor. destruct (own_store k k0); repeat constructor. Qed.
+  match t with TLeafDtor _ | TSchedDtor _ | TFree _ => True | _ => False end.
 Lemma dtor_only e : forall st, Forall is_dtor_ev (dtor e st).
 Proof.
-  induction e; intros st; rewrite dtor_unwrap_c; (apply Forall_app; split; [|apply wdtor_only]);
-    pose proof (unwrap_idem_c st) as U; destruct (unwrap st); simpl in U; try (exfalso; exact (unwrap_not_store_c _ _ _ _ U));
-    simpl; rewrite ?app_nil_r; try (constructor; simpl; auto; fail);
+  induction e; intros st; destruct st; simpl; try (constructor; simpl; auto; fail);
     try (destruct k; simpl; try constructor; auto; try (apply Forall_app; split; [auto|repeat constructor]); fail).
-  - apply Forall_app; split; [|apply Forall_app; split; apply stored_only]. destruct (dtor_b_first k); apply Forall_app; auto.
-  - apply Forall_app; split; [|apply Forall_app; split; apply stored_only]. destruct (dtor_b_first k); apply Forall_app; auto.
+  - destruct (dtor_b_first k); apply Forall_app; auto.
+  - destruct (dtor_b_first k); apply Forall_app; auto.
 Qed.
 
 (* leaf starts and root completions of [exec] are those of the script part *)
@@ -1957,8 +1899,8 @@ Lemma hop_sched id c : hop (Sched id c) id.
 Proof.
   split; [|split].
   - reflexivity.
-  - intros st cx. destruct st as [|cc sn| | | |? ? ?]; try reflexivity. destruct cc, sn; reflexivity.
-  - intros st i o cx. destruct st as [|cc sn| | | |? ? ?]; simpl; try congruence.
+  - intros st cx. destruct st as [|cc sn| | |]; try reflexivity. destruct cc, sn; reflexivity.
+  - intros st i o cx. destruct st as [|cc sn| | |]; simpl; try congruence.
     destruct cc; simpl; [congruence|]. destruct (Nat.eqb i id) eqn:E; simpl; [|congruence].
     intros _. apply Nat.eqb_eq. exact E.
 Qed.
@@ -1968,8 +1910,8 @@ Proof.
   split; [|split].
   - reflexivity.
   - intros st cx. destruct st; reflexivity.
-  - intros st i o cx. destruct st as [|cc sn|ns sc sb| | |? ? ?]; simpl; try congruence.
-    destruct sc as [|cc sn| | | |? ? ?]; simpl; try congruence.
+  - intros st i o cx. destruct st as [|cc sn|ns sc sb| |]; simpl; try congruence.
+    destruct sc as [|cc sn| | |]; simpl; try congruence.
     destruct cc; simpl; [congruence|]. destruct (Nat.eqb i id) eqn:E; simpl; [|congruence].
     intros _. apply Nat.eqb_eq. exact E.
 Qed.
@@ -1995,7 +1937,7 @@ Qed.
 
 Lemma finally_stop_none s b id st cx : hop b id -> snd (stop (Bin BFinally s b) st cx) = None.
 Proof.
-  intros Hh. destruct st as [|cc sn|ns sa sb|sa sb|vv|? ? ?]; try reflexivity.
+  intros Hh. destruct st as [|cc sn|ns sa sb|sa sb|vv]; try reflexivity.
   rewrite stop_bin. cbn [is_seq].
   assert (H2 : snd (stop_seq2 BFinally s b ns sa sb cx) = None).
   { unfold stop_seq2. destruct Hh as (_ & Hp & _). specialize (Hp sb cx).
@@ -2008,7 +1950,7 @@ Qed.
 Lemma finally_leafev_some s b id st i o cx :
   hop b id -> snd (fst (leafev (Bin BFinally s b) st i o cx)) <> None -> i = id.
 Proof.
-  intros Hh. destruct st as [|cc sn|ns sa sb|sa sb|vv|? ? ?]; try (simpl; congruence).
+  intros Hh. destruct st as [|cc sn|ns sa sb|sa sb|vv]; try (simpl; congruence).
   rewrite leafev_bin_seq by reflexivity.
   assert (H2 : snd (fst (leafev_seq2 BFinally s b ns sa sb i o cx)) <> None -> i = id).
   { unfold leafev_seq2. destruct Hh as (_ & _ & Hl).
@@ -2101,7 +2043,7 @@ Lemma sched_leafev id c sa i o cx :
   exists sa' ra hit, leafev (Sched id c) sa i o cx = (sa', [], ra, hit) /\ (hit = true -> i = id) /\
                      (ra <> None -> hit = true).
 Proof.
-  destruct sa as [|cc sn| | | |? ? ?]; simpl; try (do 3 eexists; split; [reflexivity|split; congruence]).
+  destruct sa as [|cc sn| | |]; simpl; try (do 3 eexists; split; [reflexivity|split; congruence]).
   destruct cc; [do 3 eexists; split; [reflexivity|split; congruence]|].
   destruct (Nat.eqb i id) eqn:E; do 3 eexists; (split; [reflexivity|split; try congruence]).
   intros _. apply Nat.eqb_eq. exact E.
@@ -2111,13 +2053,13 @@ Lemma sched_child_ev thr cat id c sa i oin o cx :
                      (ra <> None -> hit = true) /\ (ra = None \/ ra = Some (OVal 0) \/ ra = Some ODone).
 Proof.
   unfold child_ev.
-  destruct sa as [|cc sn| | | |? ? ?]; simpl; try (do 3 eexists; split; [reflexivity|split; [congruence|split; [congruence|auto]]]).
+  destruct sa as [|cc sn| | |]; simpl; try (do 3 eexists; split; [reflexivity|split; [congruence|split; [congruence|auto]]]).
   destruct cc; [do 3 eexists; split; [reflexivity|split; [congruence|split; [congruence|auto]]]|].
   destruct (Nat.eqb i id) eqn:E; [|do 3 eexists; split; [reflexivity|split; [congruence|split; [congruence|auto]]]].
   apply Nat.eqb_eq in E. destruct sn; simpl; do 3 eexists; (split; [reflexivity|split; [auto|split; [auto|auto]]]).
 Qed.
 Lemma sched_stop id c sa cx : exists sa', stop (Sched id c) sa cx = (sa', [], None).
-Proof. destruct sa as [|cc sn| | | |? ? ?]; simpl; eauto. destruct cc, sn; eauto. Qed.
+Proof. destruct sa as [|cc sn| | |]; simpl; eauto. destruct cc, sn; eauto. Qed.
 
 Lemma on_sees id c s sm i x : sees (on id c s) sm i x -> sees s (s_q0 sm, s_q1 sm, s_sp sm, c) i x.
 Proof.
@@ -2136,7 +2078,7 @@ Lemma on_leafev_to_pending id c s st0 i o cx st tr r hit :
   leafev (on id c s) st0 i o cx = (st, tr, r, hit) -> on_pending st -> on_pending st0 /\ tr = [].
 Proof.
   unfold on. intros H Hp.
-  destruct st0 as [|cc sn|ns sa sb|sa sb|vv|? ? ?]; try (simpl in H; inv H; auto; fail).
+  destruct st0 as [|cc sn|ns sa sb|sa sb|vv]; try (simpl in H; inv H; auto; fail).
   rewrite leafev_bin_seq in H by reflexivity.
   assert (H2 : forall st tr r hit, leafev_seq2 BSeq (Sched id c) (Un (UWithSched c) s) ns sa sb i o cx = (st, tr, r, hit) ->
                on_pending st -> ph ns = PFirst).
@@ -2159,7 +2101,7 @@ Lemma on_stop_to_pending id c s st0 cx st tr r :
   stop (on id c s) st0 cx = (st, tr, r) -> on_pending st -> on_pending st0 /\ tr = [].
 Proof.
   unfold on. intros H Hp.
-  destruct st0 as [|cc sn|ns sa sb|sa sb|vv|? ? ?]; try (simpl in H; inv H; auto; fail).
+  destruct st0 as [|cc sn|ns sa sb|sa sb|vv]; try (simpl in H; inv H; auto; fail).
   rewrite stop_bin in H. cbn [is_seq] in H.
   assert (H2 : forall st tr r, stop_seq2 BSeq (Sched id c) (Un (UWithSched c) s) ns sa sb cx = (st, tr, r) ->
                on_pending st -> ph ns = PFirst).
@@ -2261,13 +2203,13 @@ Proof.
     destruct Hk as [(_ & Etr & _)|i' oo st' tr r Hwhich Hl _ Etr|st' tr r _ _ Hs _ Etr]; rewrite E in Etr;
       apply app_inv_head in Etr; subst d.
     - destruct Hin as [Hin|[]]. discriminate.
-    - destruct (r_st rs) as [|cc sn|ns sa sb|sa sb|vv|? ? ?] eqn:Est; try contradiction Hp.
+    - destruct (r_st rs) as [|cc sn|ns sa sb|sa sb|vv] eqn:Est; try contradiction Hp.
       destruct (on_leafev_pending _ _ _ _ _ _ _ _ _ _ _ _ _ Hp Hl) as [Hi _]. specialize (Hi eq_refl). subst i'.
       destruct Hwhich as [Hw|(Hw & Hq & _)]; [exfalso; exact (Hev0 _ _ Hw)|].
       rewrite Hw. f_equal. pose proof (proj2 (proj2 HI) _ _ Hq) as Hs. unfold e, on in Hs. simpl in Hs.
       destruct Hs as [Hs|Hs]; [inv Hs; reflexivity|]. exfalso. apply Hfresh.
       apply in_map_iff. exists (id, ctx_of ev). auto.
-    - destruct (r_st rs) as [|cc sn|ns sa sb|sa sb|vv|? ? ?] eqn:Est; try contradiction Hp.
+    - destruct (r_st rs) as [|cc sn|ns sa sb|sa sb|vv] eqn:Est; try contradiction Hp.
       unfold e, on in Hs. rewrite stop_bin in Hs. cbn [is_seq] in Hs. simpl in Hp. rewrite Hp in Hs.
       unfold stop_seq1 in Hs. destruct (sched_stop id c sa (ctx_of ev)) as (sa' & Es). rewrite Es in Hs. inv Hs.
       destruct Hin as []. }
@@ -2308,8 +2250,7 @@ Qed.
    result of s - value, error or done - is forwarded *)
 Theorem via_result id c s ns sa sb i o cx st tr oc hit :
   leafev (via id c s) (ONode ns sa sb) i o cx = (st, tr, Some oc, hit) ->
-  i = id /\ ph ns <> PFirst /\ st = OFin /\
-  tr = TSchedDtor c :: dtor_ev (held BFinally (saved ns) (cell ns)) /\   (* [stage 6] the hop's operation, then s's stored result *)
+  i = id /\ ph ns <> PFirst /\ st = OFin /\ tr = [TSchedDtor c] /\
   exists seen, sb = OLeaf false seen /\
     (seen = true -> oc = ODone) /\
     (seen = false -> saved ns = Some oc \/ (saved ns = None /\ oc = OVal 0)).
@@ -2320,11 +2261,11 @@ Proof.
     fold (via id c s). rewrite H. simpl. congruence. }
   subst i. split; [reflexivity|]. unfold via in H. rewrite leafev_bin_seq in H by reflexivity.
   assert (H2 : leafev_seq2 BFinally s (Sched id c) ns sa sb id o cx = (st, tr, Some oc, hit) ->
-               st = OFin /\ tr = TSchedDtor c :: dtor_ev (held BFinally (saved ns) (cell ns)) /\
+               st = OFin /\ tr = [TSchedDtor c] /\
                exists seen, sb = OLeaf false seen /\ (seen = true -> oc = ODone) /\
                  (seen = false -> saved ns = Some oc \/ (saved ns = None /\ oc = OVal 0))).
   { clear H. intros H. unfold leafev_seq2, child_ev in H.
-    destruct sb as [|cc seen| | | |? ? ?]; try (simpl in H; discriminate H).
+    destruct sb as [|cc seen| | |]; try (simpl in H; discriminate H).
     destruct cc; [simpl in H; discriminate H|].
     simpl in H. rewrite Nat.eqb_refl in H. unfold b_done, seq_final in H.
     destruct seen; simpl in H;
@@ -2366,10 +2307,8 @@ Theorem thrown_store_is_error v :
      a_done BFinally a b ns sa tra (OValT v) cx r0a r0bl =
      let '(sb, trb, rb) := start b (n_env ns) cx in
      match rb with
-     | None => (ONode (ns_set_cell (ns_set_saved (ns_set_ph ns PSecond) (Some (OErr tcode))) None) OFin sb,
-                (tra ++ dtor1 (Some (SFinE, tcode)) a sa) ++ trb, None)
-     | Some ob => seq_final BFinally (Some (SFinE, tcode)) b sb ((tra ++ dtor1 (Some (SFinE, tcode)) a sa) ++ trb)
-                            (after_second BFinally (Some (OErr tcode)) ob)
+     | None => (ONode (ns_set_saved (ns_set_ph ns PSecond) (Some (OErr tcode))) OFin sb, (tra ++ dtor a sa) ++ trb, None)
+     | Some ob => seq_final BFinally b sb ((tra ++ dtor a sa) ++ trb) (after_second BFinally (Some (OErr tcode)) ob)
      end) /\
   (forall w, after_second BFinally (Some (OErr tcode)) (OVal w) = OErr tcode) /\
   (forall a b ns sa tra cx r0a r0bl,
@@ -2388,10 +2327,8 @@ Theorem finally_thrown_runs_completion a b ns sa sb id o cx sa' tra v hit :
   leafev (Bin BFinally a b) (ONode ns sa sb) id o cx =
   (let '(sb', trb, rb) := start b (n_env ns) cx in
    match rb with
-   | None => (ONode (ns_set_cell (ns_set_saved (ns_set_ph ns PSecond) (Some (OErr tcode))) None) OFin sb',
-              (tra ++ dtor1 (Some (SFinE, tcode)) a sa') ++ trb, None)
-   | Some ob => seq_final BFinally (Some (SFinE, tcode)) b sb' ((tra ++ dtor1 (Some (SFinE, tcode)) a sa') ++ trb)
-                          (after_second BFinally (Some (OErr tcode)) ob)
+   | None => (ONode (ns_set_saved (ns_set_ph ns PSecond) (Some (OErr tcode))) OFin sb', (tra ++ dtor a sa') ++ trb, None)
+   | Some ob => seq_final BFinally b sb' ((tra ++ dtor a sa') ++ trb) (after_second BFinally (Some (OErr tcode)) ob)
    end, hit).
 Proof.
   intros Hp Hc. rewrite leafev_bin_seq by reflexivity. rewrite Hp. unfold leafev_seq1. rewrite Hc.
